@@ -61,12 +61,13 @@ theorem hist_image (s : Pool) (hist : List Entry) (h : Inv s hist) (e : Entry) (
   exact fill_node s hist h i n hmem k (by rw [← hl]; exact hk)
 
 theorem entry_ok (s : Pool) (hist : List Entry) (h : Inv s hist) (e : Entry) (he : e ∈ hist) :
-    e.data.length ∣ e.offset ∧ e.offset + e.data.length ≤ s.size ∧ e.data.length ∣ s.alignment ∧ 0 < e.data.length := by
+    e.data.length ∣ e.offset ∧ e.offset + e.data.length ≤ s.size ∧ e.data.length ∣ s.alignment ∧ 0 < e.data.length ∧
+    e.data.length ≤ s.alignment := by
   obtain ⟨i, n, _, hl, hget, hoff⟩ := h.tree.histNode e he
   obtain ⟨hmem, _⟩ := treeGet_some hget
   have hok := h.tree.ok i n hmem
   rw [hl, ← hoff]
-  refine ⟨hok.al, hok.fit, ?_, Nat.two_pow_pos i⟩
+  refine ⟨hok.al, hok.fit, ?_, Nat.two_pow_pos i, hok.le⟩
   rcases h.pow with h0 | ⟨k, hk⟩
   · have := hok.le; have := Nat.two_pow_pos i; omega
   · rw [hk]
@@ -99,6 +100,9 @@ theorem compatible_of_pointwise (img : Bytes) (a b : Entry)
     congr 1; omega
   · simp [hc]
 
+theorem alignCovers_of {a len : Nat} (h1 : len ≤ a) (h2 : len ∣ a) : alignCovers a len = true := by
+  simp [alignCovers, h1, Nat.mod_eq_zero_of_dvd h2]
+
 theorem alignUp_ge (x a : Nat) : x ≤ alignUp x a := by unfold alignUp; split <;> omega
 
 theorem alignUp_mod (x a : Nat) : alignUp x a % max a 1 = 0 := by
@@ -125,7 +129,7 @@ theorem imageOk_fill (s : Pool) (hist : List Entry) (h : Inv s hist) : imageOk h
       refine ⟨⟨n.data, n.offset⟩, h.tree.nodeHist i n hns, ?_⟩
       have := (h.tree.ok i n hns.1).len
       simp [covers, this, h3, h4]
-  · exact Nat.mod_eq_zero_of_dvd (entry_ok s hist h e he).2.2.1
+  · have := entry_ok s hist h e he; exact alignCovers_of this.2.2.2.2 this.2.2.1
 
 theorem step_ok (s : Pool) (m : Mon) (op : Op) (hinv : Inv s m.hist) (hs : m.size = s.size) (ha : m.align = s.alignment) :
     (m.step (observe s op)).1 = true ∧ Inv (step s op) (m.step (observe s op)).2.hist ∧
@@ -154,7 +158,7 @@ theorem step_ok (s : Pool) (m : Mon) (op : Op) (hinv : Inv s m.hist) (hs : m.siz
       refine ⟨?_, hinv', trivial, trivial⟩
       have hnew := entry_ok _ _ hinv' ⟨d, off⟩ List.mem_cons_self
       simp only [Bool.and_eq_true, beq_iff_eq, decide_eq_true_eq]
-      refine ⟨⟨⟨⟨⟨Nat.mod_eq_zero_of_dvd hnew.1, hnew.2.1⟩, Nat.mod_eq_zero_of_dvd hnew.2.2.1⟩, by omega⟩, by omega⟩, ?_⟩
+      refine ⟨⟨⟨⟨⟨Nat.mod_eq_zero_of_dvd hnew.1, hnew.2.1⟩, alignCovers_of hnew.2.2.2.2 hnew.2.2.1⟩, by omega⟩, by omega⟩, ?_⟩
       unfold placedOk
       rw [List.all_eq_true]
       intro e he
